@@ -598,6 +598,25 @@ pub fn scenarios(prop: &str, tier: &str) -> Vec<Arc<dyn Scenario>> {
             a.no_unsnap = true;
             a.reopen = true;
             a.wms = vec![Wm::Zero, Wm::Tight];
+            {
+                // drop_range / clear on a tree whose tables are spread over a cascade of over-full levels
+                // (several levels, several tables per run)
+                let mut ac = cascade_alphabet();
+                let kb = |b: u8| vec![b];
+                ac.drop_ranges = vec![
+                    (Bnd::Unb, Bnd::Inc(kb(b'a'))),
+                    (Bnd::Inc(kb(b'b')), Bnd::Inc(kb(b'b'))),
+                    (Bnd::Exc(kb(b'a')), Bnd::Unb),
+                    (Bnd::Inc(kb(b'a')), Bnd::Exc(kb(b'c'))),
+                    (Bnd::Unb, Bnd::Unb),
+                ];
+                ac.clear = true;
+                ac.snap = true;
+                ac.no_unsnap = true;
+                ac.reopen = !quick;
+                let bd = if quick { bs(2, 1, 1, 0, 1) } else { bs(4, 1, 1, 1, 2) };
+                v.push(std("C15-cascade-k3", TreeCfg::small(keys_abc()), ac, bd, vec![vec![]], OracleKind::C15));
+            }
             if quick {
                 v.push(std("C15-std", TreeCfg::small(keys.clone()), a.clone(), bs(1, 0, 1, 1, 1), seeds.clone(), OracleKind::C15));
                 let mut ab = a.clone();
